@@ -16,6 +16,7 @@ import (
 	"time"
 
 	hio "github.com/hprose/hprose-golang/v3/io"
+	"github.com/hprose/hprose-golang/v3/rpc/codec/jsonrpc"
 	"github.com/hprose/hprose-golang/v3/rpc/core"
 
 	"verif/harness/fmtx"
@@ -138,6 +139,39 @@ func c04Exec(in c04Input) (outcome, detail string) {
 		}
 		if len(resp) > 0 && resp[0] == 'E' {
 			return "error", string(resp)
+		}
+		return "ok", ""
+	case "jservice":
+		// the JSON-RPC service codec
+		s := core.NewService()
+		s.Codec = jsonrpc.NewServiceCodec(nil)
+		s.AddFunction(func(a int, b string, c []int, d map[string]interface{}) int { return a }, "f")
+		s.AddFunction(func(a int, v ...string) int { return len(v) }, "g")
+		s.AddFunction(func() (int, string) { return 1, "x" }, "two")
+		ctx := core.WithContext(context.Background(), core.NewServiceContext(s))
+		resp, err := s.Handle(ctx, b)
+		if err != nil {
+			return "error", err.Error()
+		}
+		if strings.Contains(string(resp), "\"error\"") || (len(resp) > 0 && resp[0] == 'E') {
+			return "error", string(resp)
+		}
+		return "ok", ""
+	case "jclient":
+		// the JSON-RPC client codec, with one, two or no declared result types
+		cc := core.NewClientContext()
+		dt, _ := c04Dest(strings.TrimPrefix(strings.TrimPrefix(in.Dest, "pair:"), "none:"))
+		switch {
+		case strings.HasPrefix(in.Dest, "pair:"):
+			cc.ReturnType = []reflect.Type{reflect.TypeOf(0), dt}
+		case strings.HasPrefix(in.Dest, "none:"):
+			cc.ReturnType = nil
+		default:
+			cc.ReturnType = []reflect.Type{dt}
+		}
+		_, err := jsonrpc.NewClientCodec(nil).Decode(b, cc)
+		if err != nil {
+			return "error", err.Error()
 		}
 		return "ok", ""
 	case "client":
@@ -280,6 +314,56 @@ func c04Mutations(b []byte, rng *tr.Rng, thorough bool) map[string][][]byte {
 	return m
 }
 
+// c04JSON: JSON-RPC requests and responses (base streams; the byte-level mutations apply to them too)
+func c04JSON() (reqs, resps [][]byte) {
+	for _, r := range []string{
+		`{"jsonrpc":"2.0","id":1,"method":"f","params":[1,"x",[1,2],{"k":1}]}`,
+		`{"jsonrpc":"2.0","id":2,"method":"g","params":[1,"a","b"]}`,
+		`{"jsonrpc":"2.0","id":3,"method":"g","params":[1]}`,
+		`{"jsonrpc":"2.0","id":4,"method":"two"}`,
+		`{"jsonrpc":"2.0","id":5,"method":"f","params":[1,"x",[1,2],{"k":1},5,6]}`,
+		`{"jsonrpc":"2.0","id":6,"method":"f","params":[1]}`,
+		`{"jsonrpc":"2.0","id":7,"method":"f"}`,
+		`{"jsonrpc":"2.0","id":8,"method":"g","params":[]}`,
+		`{"jsonrpc":"2.0","id":9,"method":"two","params":[1,2,3]}`,
+		`{"jsonrpc":"2.0","id":10,"method":"f","params":{"a":1}}`,
+		`{"jsonrpc":"2.0","id":"abc","method":"f","params":[1,"x",[],{}]}`,
+		`{"jsonrpc":"2.0","id":11,"method":"f","params":["x",1,{},[]]}`,
+		`{"jsonrpc":"2.0","id":12,"method":"f","params":[null,null,null,null]}`,
+		`{"jsonrpc":"2.0","id":13,"method":"nosuch","params":[1]}`,
+		`{"jsonrpc":"1.0","id":14,"method":"f","params":[1,"x",[],{}]}`,
+		`{"jsonrpc":"2.0","id":15,"headers":{"h":1,"simple":true},"method":"g","params":[1,"a"]}`,
+		`{"jsonrpc":"2.0","id":16,"method":"g","params":[1,2,3]}`,
+		`[{"jsonrpc":"2.0","id":17,"method":"two"}]`,
+		`{"jsonrpc":"2.0","id":1e99,"method":"two"}`,
+		`{}`, `{"method":"two"}`,
+	} {
+		reqs = append(reqs, []byte(r))
+	}
+	for _, r := range []string{
+		`{"jsonrpc":"2.0","id":1,"result":5}`,
+		`{"jsonrpc":"2.0","id":1,"result":[1,"x"]}`,
+		`{"jsonrpc":"2.0","id":1,"result":[1]}`,
+		`{"jsonrpc":"2.0","id":1,"result":[1,"x",3]}`,
+		`{"jsonrpc":"2.0","id":1,"result":[]}`,
+		`{"jsonrpc":"2.0","id":1,"result":"text"}`,
+		`{"jsonrpc":"2.0","id":1,"result":{"a":1}}`,
+		`{"jsonrpc":"2.0","id":1,"result":null}`,
+		`{"jsonrpc":"2.0","id":1}`,
+		`{"jsonrpc":"2.0","id":1,"headers":{"h":[1,2]},"result":true}`,
+		`{"jsonrpc":"2.0","id":1,"error":{"code":-32601,"message":"Method not found"}}`,
+		`{"jsonrpc":"2.0","id":1,"error":{"message":"boom","data":"c3RhY2s="}}`,
+		`{"jsonrpc":"2.0","id":1,"error":{"message":"plain"}}`,
+		`{"jsonrpc":"2.0","id":1,"error":{"message":"x","data":"%%%"}}`,
+		`{"jsonrpc":"2.0","id":1,"error":"not an object"}`,
+		`{"jsonrpc":"2.0","id":1,"result":1,"error":{"message":"both"}}`,
+		`[1,2]`, `5`, `{"result":[[1],[2]]}`,
+	} {
+		resps = append(resps, []byte(r))
+	}
+	return
+}
+
 func c04Special() map[string][][]byte {
 	m := map[string][][]byte{}
 	m["unhashable-key"] = [][]byte{[]byte("m1{a{}1}"), []byte("m1{m{}1}"), []byte("m1{a1{1}ux}"), []byte("m2{a{}1a{}2}"),
@@ -354,6 +438,31 @@ func runC04(a Args) tr.Summary {
 			for k, l := range c04Mutations(b, rng, thorough) {
 				for _, x := range l {
 					addInput(x, k)
+				}
+			}
+		}
+		// JSON-RPC: every base stream with every declared result shape, and its one-edit neighbourhood
+		jreqs, jresps := c04JSON()
+		addJ := func(b []byte, entry, mut string) {
+			dests := []string{"iface"}
+			if entry == "jclient" {
+				dests = []string{"iface", "int", "string", "slice_int", "map_string_int", "plain", "pair:iface", "pair:string", "pair:slice_int", "none:iface"}
+			}
+			for _, d := range dests {
+				inputs = append(inputs, c04Input{ID: len(inputs) + 1, Hex: hex.EncodeToString(b), Dest: d, Mode: "ref", Entry: entry, Mut: mut})
+			}
+		}
+		for i, l := range [][][]byte{jreqs, jresps} {
+			entry := []string{"jservice", "jclient"}[i]
+			for _, b := range l {
+				addJ(b, entry, "json-valid")
+				for k, ms := range c04Mutations(b, rng, false) {
+					for j, x := range ms {
+						if k != "truncate" && j%5 != 0 { // a fifth of the substitutions / insertions / deletions
+							continue
+						}
+						addJ(x, entry, "json-"+k)
+					}
 				}
 			}
 		}
